@@ -120,6 +120,11 @@ def _fold_const_ifs(stmts):
     return out
 
 
+def call_helper_name(call):
+    f = call.func
+    return f.id if isinstance(f, ast.Name) else f.attr
+
+
 class _Inliner:
     def __init__(self, repo, f, depth):
         self.repo, self.f, self.depth = repo, f, depth
@@ -148,8 +153,14 @@ class _Inliner:
         if not (nested or private or own_method) or g is self.f or g.qname in stack:
             return None
         a = g.node.args
-        if a.vararg or a.kwarg or g.node.decorator_list:
+        if a.kwarg or g.node.decorator_list:
             return None
+        if a.vararg:
+            # *rest is supported when the helper only ever spreads it again (`f(x, *rest)`)
+            va = a.vararg.arg
+            spread = {id(s_.value) for s_ in ast.walk(g.node) if isinstance(s_, ast.Starred) and isinstance(s_.value, ast.Name) and s_.value.id == va}
+            if any(isinstance(n, ast.Name) and n.id == va and id(n) not in spread for n in ast.walk(g.node)):
+                return None
         if any(isinstance(x, (ast.Yield, ast.YieldFrom, ast.Global, ast.Nonlocal, ast.Await)) for x in ast.walk(g.node)):
             return None
         if any(isinstance(x, ast.Starred) for x in call.args) or any(k.arg is None for k in call.keywords):
@@ -168,8 +179,13 @@ class _Inliner:
             # self._helper(...): the helper's own first parameter is the caller's self
             pre_bound[pos[0]] = ast.Name(id=call.func.value.id, ctx=ast.Load())
             pos = pos[1:]
+        self.rest = None
         if len(call.args) > len(pos):
-            return None
+            if a.vararg is None:
+                return None
+            self.rest = (a.vararg.arg, list(call.args[len(pos) :]))
+        elif a.vararg is not None:
+            self.rest = (a.vararg.arg, [])
         sub = dict(zip(pos, call.args))
         sub.update(pre_bound)
         for k in call.keywords:
@@ -205,6 +221,15 @@ class _Inliner:
                 tmp = f"{g.name}__{p_}" if self.expansions.get(g.name, 0) == 0 else f"{g.name}_{self.expansions[g.name] + 1}__{p_}"
                 pre.append(ast.Assign(targets=[ast.Name(id=tmp, ctx=ast.Store())], value=copy.deepcopy(e), type_comment=None))
                 real[p_] = ast.Name(id=tmp, ctx=ast.Load())
+        rest_name, rest_vals = self.rest if getattr(self, "rest", None) else (None, [])
+        rest_real = []
+        for i_, e in enumerate(rest_vals):
+            if _simple_arg(e):
+                rest_real.append(e)
+            else:
+                tmp = f"{g.name}__{rest_name}{i_}" if self.expansions.get(g.name, 0) == 0 else f"{g.name}_{self.expansions[g.name] + 1}__{rest_name}{i_}"
+                pre.append(ast.Assign(targets=[ast.Name(id=tmp, ctx=ast.Store())], value=copy.deepcopy(e), type_comment=None))
+                rest_real.append(ast.Name(id=tmp, ctx=ast.Load()))
         k_ = self.expansions[g.name] = self.expansions.get(g.name, 0) + 1
         prefix = g.name if k_ == 1 else f"{g.name}_{k_}"  # each expansion has its own locals
 
@@ -221,10 +246,62 @@ class _Inliner:
                     return ast.copy_location(ast.Name(id=f"{prefix}__{n.id}", ctx=n.ctx), n)
                 return n
 
+            def visit_Call(self, c):
+                if rest_name is not None and any(isinstance(x, ast.Starred) and isinstance(x.value, ast.Name) and x.value.id == rest_name for x in c.args):
+                    args = []
+                    for x in c.args:
+                        if isinstance(x, ast.Starred) and isinstance(x.value, ast.Name) and x.value.id == rest_name:
+                            args.extend(copy.deepcopy(r) for r in rest_real)
+                        else:
+                            args.append(x)
+                    c.args = args
+                return self.generic_visit(c)
+
             def visit_FunctionDef(self, n):
                 return n  # helpers nested in the helper are left alone
 
         return _fold_const_ifs([R().visit(copy.deepcopy(b)) for b in body])
+
+    def _nested_statement_helper(self, expr, stack):
+        """the first call of a multi-statement helper that is evaluated unconditionally inside ``expr`` and
+        before which nothing with an effect is evaluated (so that naming it first is the same program)"""
+        MUT = {"append", "extend", "insert", "pop", "remove", "clear", "update", "sort", "reverse", "setdefault", "popitem", "add", "discard"}
+        found = []
+
+        def walk(e):
+            """returns False once something with a possible effect has been passed"""
+            if found:
+                return True
+            if isinstance(e, (ast.Lambda, ast.ListComp, ast.SetComp, ast.DictComp, ast.GeneratorExp, ast.IfExp, ast.NamedExpr, ast.Await, ast.Yield, ast.YieldFrom)):
+                return False
+            if isinstance(e, ast.BoolOp):
+                return walk(e.values[0]) and False
+            if isinstance(e, ast.Call):
+                for x in [e.func] + list(e.args) + [k.value for k in e.keywords]:
+                    if not walk(x):
+                        return False
+                    if found:
+                        return True
+                g = self.helper_for(e, stack)
+                if g is not None:
+                    body = _body_of(g)
+                    if not (len(body) == 1 and isinstance(body[0], ast.Return)) and _always_returns(body) and self.bind(e, g) is not None:
+                        found.append(e)
+                        return True
+                    return False  # another helper: its effects are unknown here
+                if isinstance(e.func, ast.Attribute) and e.func.attr in MUT:
+                    return False
+                return True
+            for x in ast.iter_child_nodes(e):
+                if isinstance(x, ast.expr):
+                    if not walk(x):
+                        return False
+                    if found:
+                        return True
+            return True
+
+        walk(expr)
+        return found[0] if found else None
 
     # -- expansion ---------------------------------------------------------------------
     def expr_helpers(self, node, stack, pre):
@@ -326,6 +403,27 @@ class _Inliner:
                         ast.fix_missing_locations(n_)
                     # helpers called by the helper
                     out.extend(self.block(new, stack + [g.qname], d - 1))
+                    continue
+            # a statement helper called inside a larger expression: `x = a / h(b)` is `t = h(b); x = a / t`
+            if d > 0 and isinstance(st, (ast.Assign, ast.AugAssign, ast.AnnAssign, ast.Return, ast.Expr)) and getattr(st, "value", None) is not None:
+                hit = self._nested_statement_helper(st.value, stack)
+                if hit is not None and hit is not st.value:
+                    self.hoisted = getattr(self, "hoisted", 0) + 1
+                    tmp = f"{call_helper_name(hit)}__value{self.hoisted}"
+                    pre_st = ast.Assign(targets=[ast.Name(id=tmp, ctx=ast.Store())], value=hit, type_comment=None)
+
+                    class Rep(ast.NodeTransformer):
+                        def visit_Call(self, c):
+                            if c is hit:
+                                return ast.copy_location(ast.Name(id=tmp, ctx=ast.Load()), c)
+                            return self.generic_visit(c)
+
+                    st.value = Rep().visit(st.value)
+                    for n_ in (pre_st, st):
+                        ast.copy_location(pre_st, st)
+                        ast.fix_missing_locations(n_)
+                    self.changed = True
+                    out.extend(self.block([pre_st, st], stack, d))
                     continue
             # expression helpers inside the statement
             pre = []
